@@ -1,9 +1,14 @@
 #!/bin/sh
-# process every delivered, not yet evaluated sub-agent change under /tmp/seed/Cxx/_seed/N
+# process every delivered, not yet evaluated sub-agent change under $SEEDROOT/Cxx/_seed/N  (default /tmp/seed3, suffix w3)
 cd "$(dirname "$0")/.." || exit 2
-for d in /tmp/seed/C*/_seed/[0-9]; do
+ROOT=${SEEDROOT:-/tmp/seed3}
+TAG=${SEEDTAG:-w3}
+for d in $ROOT/C*/_seed/[0-9]; do
   [ -f "$d/patch.diff" ] || continue
-  id=$(echo "$d" | sed 's#/tmp/seed/\(C[0-9]*\)/_seed/\([0-9]\)#\1-\2#')
+  [ -f "$d/meta.json" ] || continue
+  pid=$(echo "$d" | sed "s#$ROOT/\(C[0-9]*\)/_seed/.*#\1#")
+  n=$(basename "$d")
+  id="$pid-$TAG$n"
   [ -f "seeded/$id/meta.json" ] && continue
   echo "== $id"
   /venv/bin/python tools/seedcheck.py "$d" --keep-as "$id" 2>&1 | grep -v conda | grep "confirmed\|^target\|^  \[" | cut -c1-360
